@@ -34,6 +34,8 @@ struct rs_harness {
 	/* optional: observer of every hooked atomic operation (after it executed) */
 	void (*on_op)(int kind, const volatile void *addr, unsigned size, const char *file, int line, uint64_t before,
 	    uint64_t after);
+	/* optional: harness context appended to deadlock / livelock verdicts (part of the signature) */
+	void (*describe)(char *buf, size_t cap);
 	/* names for the user counters, for the report */
 	const char *counter_names[RS_NCOUNTERS];
 };
